@@ -50,6 +50,8 @@ impl Reader {
     pub fn unchecked_read(&self, offset: usize, len: usize) -> &[u8] {
         let start = self.start() + offset;
         let end = start + len;
+        #[cfg(feature = "verif_hooks")]
+        crate::verif::access(|| crate::verif::AccessEvent::Read { base: self.mmap.as_ptr() as usize, start: self.start, snap_len: self.len, offset, len });
         &self.mmap[start..end]
     }
 
@@ -84,6 +86,8 @@ impl Reader {
     pub fn prefixed(&self, offset: usize) -> &[u8] {
         assert!(offset <= self.len());
         let start = self.start() + offset;
+        #[cfg(feature = "verif_hooks")]
+        crate::verif::access(|| crate::verif::AccessEvent::Prefixed { base: self.mmap.as_ptr() as usize, start: self.start, snap_len: self.len, offset });
         &self.mmap[start..]
     }
 }
